@@ -5,7 +5,15 @@
 //!
 //! line: c15 k=<case> lcdc=.. scx=.. scy=.. wx=.. wy=.. bgp=.. obp0=.. obp1=.. bs=<batch seed>
 //!           oam=<320 hex> vram=<16384 hex> | frame=<46080 hex>      (or `| panic=<kind>`)
-//! Options: --n <frames>  --shard i/n  --replay-line "<line>"
+//!
+//! stream c15.seq: SEVERAL frames per case on ONE VideoState; between two frames, at `vb<f>` clocks into the
+//! VBlank (multiple of 4, < 4560), the setters are called again and VRAM/OAM may be replaced, so state carried
+//! from line to line and frame to frame (object line cache, its cursor, window line, tile cache) is observed.
+//! Every presented frame is compared with the reference for the contents held constant over THAT frame.
+//! line: c15.seq k=<case> nf=<n> bs=.. { lcdc<f>= scx<f>= scy<f>= wx<f>= wy<f>= bgp<f>= obp0<f>= obp1<f>= vb<f>=
+//!           oam<f>=<hex> [vram<f>=<hex> when it differs from frame f-1] }  |  fz<f>=<11520 hex: 2 pixels per digit,
+//!           shade indices> (or frame<f>=<46080 hex> if a byte is not one of the four shades)   (or `| panic=<kind>`)
+//! Options: --n <cases>  --shard i/n  --replay-line "<line>"
 use crate::devices::video::VideoState;
 use crate::timing::ClockCycles;
 use crate::util::{Opts, Rng};
@@ -226,20 +234,208 @@ fn parse_line(line: &str) -> Case {
   c
 }
 
-pub fn run(_sub: &str, opts: &Opts, w: &mut dyn Write) {
+
+// ---------------------------------------------------------------- multi-frame sequences
+
+pub struct FrameIn { pub lcdc: u8, pub scx: u8, pub scy: u8, pub wx: u8, pub wy: u8, pub bgp: u8, pub obp0: u8, pub obp1: u8,
+                     pub vb: usize, pub oam: Vec<u8>, pub vram: Vec<u8>, pub vram_new: bool }
+pub struct Seq { pub k: u64, pub bs: u64, pub frames: Vec<FrameIn> }
+
+fn apply_regs(v: &mut VideoState, f: &FrameIn) {
+  v.set_lcd_control(f.lcdc);
+  v.set_bgp(f.bgp);
+  v.set_obj_palette(0, f.obp0);
+  v.set_obj_palette(1, f.obp1);
+  v.set_scroll_x(f.scx);
+  v.set_scroll_y(f.scy);
+  v.set_window_x(f.wx);
+  v.set_window_y(f.wy);
+}
+
+fn run_batches(v: &mut VideoState, rng: &mut Rng, mut remaining: usize, vram: &Box<[u8]>, oam: &Box<[u8]>) {
+  while remaining > 0 {
+    let b = match rng.below(4) {
+      0 => 4,
+      1 => 4 * (1 + rng.below(6) as usize),
+      2 => 4 * (1 + rng.below(114) as usize),
+      _ => 4 * (1 + rng.below(1200) as usize),
+    };
+    let b = b.min(remaining);
+    v.run_clock_cycles(ClockCycles(b), vram, oam);
+    remaining -= b;
+  }
+}
+
+pub fn render_seq(q: &Seq) -> Result<Vec<Vec<u8>>, String> {
+  let r = std::panic::catch_unwind(std::panic::AssertUnwindSafe(|| {
+    let mut out = Vec::new();
+    let mut v = VideoState::new();
+    let mut rng = Rng::new(q.bs);
+    let mut vram: Box<[u8]> = q.frames[0].vram.clone().into_boxed_slice();
+    let mut oam: Box<[u8]> = q.frames[0].oam.clone().into_boxed_slice();
+    apply_regs(&mut v, &q.frames[0]);
+    run_batches(&mut v, &mut rng, 4560 + 144 * 456, &vram, &oam);
+    if v.get_ly() != 144 || v.get_current_mode() != 1 { return Err(format!("notvblank-f0-ly{}-mode{}", v.get_ly(), v.get_current_mode())); }
+    out.push(v.get_visible_buffer().to_vec());
+    for (i, f) in q.frames.iter().enumerate().skip(1) {
+      // part of the VBlank with the old contents, then the guest rewrites registers / OAM / VRAM
+      run_batches(&mut v, &mut rng, f.vb, &vram, &oam);
+      apply_regs(&mut v, f);
+      vram = f.vram.clone().into_boxed_slice();
+      oam = f.oam.clone().into_boxed_slice();
+      run_batches(&mut v, &mut rng, 4560 - f.vb + 144 * 456, &vram, &oam);
+      if v.get_ly() != 144 || v.get_current_mode() != 1 { return Err(format!("notvblank-f{}-ly{}-mode{}", i, v.get_ly(), v.get_current_mode())); }
+      out.push(v.get_visible_buffer().to_vec());
+    }
+    Ok(out)
+  }));
+  match r {
+    Ok(Ok(f)) => Ok(f),
+    Ok(Err(e)) => Err(e),
+    Err(p) => {
+      let msg = if let Some(s) = p.downcast_ref::<String>() { s.clone() } else if let Some(s) = p.downcast_ref::<&str>() { s.to_string() } else { "panic".into() };
+      let kind = if msg.contains("out of range") || msg.contains("out of bounds") { "oob" } else if msg.contains("overflow") { "overflow" } else { "explicit" };
+      Err(kind.to_string())
+    }
+  }
+}
+
+fn shade_index(b: u8) -> Option<u8> { match b { 255 => Some(0), 170 => Some(1), 85 => Some(2), 0 => Some(3), _ => None } }
+
+fn emit_seq(q: &Seq, w: &mut dyn Write) {
+  let mut s: Vec<u8> = Vec::with_capacity(160000);
+  s.extend_from_slice(format!("c15.seq k={} nf={} bs={}", q.k, q.frames.len(), q.bs).as_bytes());
+  for (i, f) in q.frames.iter().enumerate() {
+    s.extend_from_slice(format!(" lcdc{i}={} scx{i}={} scy{i}={} wx{i}={} wy{i}={} bgp{i}={} obp0{i}={} obp1{i}={} vb{i}={} oam{i}=",
+      f.lcdc, f.scx, f.scy, f.wx, f.wy, f.bgp, f.obp0, f.obp1, f.vb, i = i).as_bytes());
+    hex_into(&mut s, &f.oam);
+    if i == 0 || f.vram_new {
+      s.extend_from_slice(format!(" vram{}=", i).as_bytes());
+      hex_into(&mut s, &f.vram);
+    }
+  }
+  match render_seq(q) {
+    Ok(frames) => {
+      s.extend_from_slice(b" |");
+      for (i, f) in frames.iter().enumerate() {
+        if f.iter().all(|b| shade_index(*b).is_some()) && f.len() % 2 == 0 {
+          s.extend_from_slice(format!(" fz{}=", i).as_bytes());
+          for p in f.chunks(2) { s.push(HEX[(shade_index(p[0]).unwrap() * 4 + shade_index(p[1]).unwrap()) as usize]); }
+        } else {
+          s.extend_from_slice(format!(" frame{}=", i).as_bytes());
+          hex_into(&mut s, f);
+        }
+      }
+    }
+    Err(e) => { s.extend_from_slice(b" | panic="); s.extend_from_slice(e.as_bytes()); }
+  }
+  s.push(b'\n');
+  w.write_all(&s).unwrap();
+}
+
+/// OAM with opaque-capable objects on the last visible lines (what survives in the line cache into the next frame)
+fn gen_oam_last_lines(rng: &mut Rng) -> Vec<u8> {
+  let mut o = gen_oam(rng);
+  let n = 1 + rng.below(12) as usize;
+  for _ in 0..n {
+    let i = rng.below(40) as usize;
+    // 8x8: Y in 152..=159 covers line 143; 8x16: Y in 144..=159
+    o[4 * i] = 144 + rng.below(16) as u8;
+    o[4 * i + 1] = if rng.chance(1, 4) { *rng.pick(&X_EDGE) } else { 1 + rng.below(167) as u8 };
+    o[4 * i + 2] = rng.u8(); o[4 * i + 3] = rng.u8();
+  }
+  o
+}
+
+pub fn gen_seq(seed: u64, k: u64) -> Seq {
+  let mut rng = Rng::new(seed.wrapping_mul(1_000_003).wrapping_add(k).wrapping_add(0x5EC15));
+  for _ in 0..4 { rng.next(); }
+  let c = gen_case(seed ^ 0x5e9, k);
+  let nf = 2 + rng.below(2) as usize; // 2 or 3 frames (keeps a line below the 128 KiB argv limit for --replay-line)
+  let directed = k % 3; // 0: objects on -> off -> on with objects on the last lines; 1: 8x16 <-> 8x8; 2: free
+  let mut f0 = FrameIn { lcdc: c.lcdc, scx: c.scx, scy: c.scy, wx: c.wx, wy: c.wy, bgp: c.bgp, obp0: c.obp0, obp1: c.obp1,
+                         vb: 0, oam: c.oam, vram: c.vram, vram_new: true };
+  if directed == 0 {
+    f0.lcdc |= 0x02;
+    f0.oam = gen_oam_last_lines(&mut rng);
+    if f0.vram[..0x1000].iter().filter(|b| **b != 0).count() < 2048 { for b in f0.vram[..0x1000].iter_mut() { *b = rng.u8(); } }
+  }
+  if directed == 1 { f0.lcdc |= 0x02; }
+  let mut frames = vec![f0];
+  for i in 1..nf {
+    let p = &frames[i - 1];
+    let mut f = FrameIn { lcdc: p.lcdc, scx: p.scx, scy: p.scy, wx: p.wx, wy: p.wy, bgp: p.bgp, obp0: p.obp0, obp1: p.obp1,
+                          vb: 4 * rng.below(1140) as usize, oam: p.oam.clone(), vram: p.vram.clone(), vram_new: false };
+    if rng.chance(1, 4) { f.vb = *rng.pick(&[0usize, 4, 4556]); }
+    // LCDC bits 1..6 toggled at random; bits 7 and 0 stay set
+    for bit in [0x02u8, 0x04, 0x08, 0x10, 0x20, 0x40] { if rng.chance(1, 3) { f.lcdc ^= bit; } }
+    match directed {
+      0 => { if i == 1 { f.lcdc &= !0x02; } else { f.lcdc |= 0x02; } }
+      1 => { f.lcdc |= 0x02; f.lcdc ^= 0x04; }
+      _ => {}
+    }
+    if rng.chance(1, 2) { f.scx = if rng.chance(1, 3) { *rng.pick(&SC_EDGE) } else { rng.u8() }; }
+    if rng.chance(1, 2) { f.scy = if rng.chance(1, 3) { *rng.pick(&SC_EDGE) } else { rng.u8() }; }
+    if rng.chance(1, 2) { f.wx = if rng.chance(2, 3) { *rng.pick(&WX_EDGE) } else { rng.u8() }; }
+    if rng.chance(1, 2) { f.wy = match rng.below(3) { 0 => *rng.pick(&WY_EDGE), 1 => rng.below(144) as u8, _ => rng.u8() }; }
+    if rng.chance(1, 2) { f.bgp = rng.u8(); }
+    if rng.chance(1, 2) { f.obp0 = rng.u8(); }
+    if rng.chance(1, 2) { f.obp1 = rng.u8(); }
+    // OAM: untouched, a few entries rewritten, or everything rewritten
+    match rng.below(4) {
+      0 => {}
+      1 => { for _ in 0..(1 + rng.below(8)) { let j = rng.below(40) as usize; f.oam[4 * j] = rng.below(168) as u8; f.oam[4 * j + 1] = rng.below(176) as u8; f.oam[4 * j + 2] = rng.u8(); f.oam[4 * j + 3] = rng.u8(); } }
+      2 => { f.oam = gen_oam(&mut rng); }
+      _ => { f.oam = gen_oam_last_lines(&mut rng); }
+    }
+    // VRAM: mostly untouched; sometimes some tiles / map cells rewritten, rarely everything
+    match rng.below(8) {
+      0 => { for _ in 0..(1 + rng.below(64)) { let a = rng.below(0x2000) as usize; f.vram[a] = rng.u8(); } f.vram_new = true; }
+      1 => { f.vram = gen_vram(&mut rng); f.vram_new = true; }
+      _ => {}
+    }
+    frames.push(f);
+  }
+  Seq { k, bs: rng.next(), frames }
+}
+
+fn parse_seq(line: &str) -> Seq {
+  let mut kv = std::collections::HashMap::new();
+  for t in line.split_whitespace() {
+    if t == "|" { break; }
+    if let Some(i) = t.find('=') { kv.insert(t[..i].to_string(), t[i + 1..].to_string()); }
+  }
+  let n = |k: &str| -> u64 { kv.get(k).and_then(|v| v.parse::<u64>().ok()).unwrap_or(0) };
+  let nf = n("nf") as usize;
+  let mut frames: Vec<FrameIn> = Vec::new();
+  for i in 0..nf {
+    let g = |name: &str| -> u8 { n(&format!("{}{}", name, i)) as u8 };
+    let (vram, vram_new) = match kv.get(&format!("vram{}", i)) {
+      Some(h) => (unhex(h), true),
+      None => (if i > 0 { frames[i - 1].vram.clone() } else { vec![0; 0x2000] }, false),
+    };
+    let oam = kv.get(&format!("oam{}", i)).map(|h| unhex(h)).unwrap_or_else(|| vec![0; 0xa0]);
+    frames.push(FrameIn { lcdc: g("lcdc"), scx: g("scx"), scy: g("scy"), wx: g("wx"), wy: g("wy"), bgp: g("bgp"), obp0: g("obp0"), obp1: g("obp1"),
+                          vb: n(&format!("vb{}", i)) as usize, oam, vram, vram_new });
+  }
+  Seq { k: n("k"), bs: n("bs"), frames }
+}
+
+pub fn run(sub: &str, opts: &Opts, w: &mut dyn Write) {
   // panics inside run_clock_cycles are caught and reported as the observation; keep stderr quiet
   std::panic::set_hook(Box::new(|_| {}));
+  let seq = sub == "seq";
   if let Some(line) = opts.get("replay-line") {
-    emit(&parse_line(line), w);
+    if seq || line.starts_with("c15.seq") { emit_seq(&parse_seq(line), w); } else { emit(&parse_line(line), w); }
     return;
   }
-  let n = opts.get_usize("n", if opts.thorough { 30000 } else { 300 }) as u64;
+  let n = opts.get_usize("n", if seq { if opts.thorough { 6000 } else { 150 } } else if opts.thorough { 30000 } else { 300 }) as u64;
   let (si, sn) = match opts.get("shard") {
     Some(s) => { let p: Vec<&str> = s.split('/').collect(); (p[0].parse::<u64>().unwrap(), p[1].parse::<u64>().unwrap()) }
     None => (0, 1),
   };
   for k in 0..n {
     if k % sn != si { continue; }
-    emit(&gen_case(opts.seed, k), w);
+    if seq { emit_seq(&gen_seq(opts.seed, k), w); } else { emit(&gen_case(opts.seed, k), w); }
   }
 }
